@@ -93,6 +93,25 @@ func (h *H) evalFault(c *core.Case, s *Scenario, dir, world string, r *run) {
 		} else {
 			priorBytes = []byte("// stale\n")
 		}
+	case "otherfmt":
+		// what the same arguments produce under another formatter (same tokens, other layout)
+		priorBytes = []byte("// stale\n")
+		if goodOK {
+			alt := rc.Clone()
+			alt.Cfg.Fmt = "noop"
+			if cfg.Fmt == "noop" {
+				alt.Cfg.Fmt = "gofmt"
+			}
+			if ar := core.RunMoq(h.Env, alt, world); ar.Exit == 0 && len(ar.Stdout) > 0 {
+				priorBytes = ar.Stdout
+			}
+			r.note("moq_runs")
+		}
+	case "crlf":
+		priorBytes = []byte("// stale\n")
+		if goodOK {
+			priorBytes = bytes.ReplaceAll(pristine.Stdout, []byte("\n"), []byte("\r\n"))
+		}
 	case "longer":
 		// an earlier, longer output (still valid Go): what a shrinking interface list leaves behind
 		priorBytes = append(append([]byte{}, pristine.Stdout...), []byte(strings.Repeat("\n// stale tail of an earlier, longer generation\n", 40))...)
@@ -331,7 +350,7 @@ func (h *H) evalFault(c *core.Case, s *Scenario, dir, world string, r *run) {
 		if outAbs != "" && !argvOverride {
 			if !nowExists || nowIsDir {
 				r.bad("C17", "success-writes-file", "moq %v exited 0 but there is no file at -out", res.Argv)
-			} else if goodOK && !sourceBroken && (s.Prior == "absent" || s.Prior == "good" || s.Prior == "longer" || rmRequested) && s.Fault == "none" {
+			} else if goodOK && !sourceBroken && (s.Prior == "absent" || s.Prior == "good" || s.Prior == "longer" || s.Prior == "otherfmt" || s.Prior == "crlf" || rmRequested) && s.Fault == "none" {
 				if !bytes.Equal(nowContent, pristine.Stdout) {
 					r.bad("C17", "success-complete-file", "-out file differs from the stdout-mode output of the same arguments: %s", diffLine(pristine.Stdout, nowContent))
 				}
